@@ -15,6 +15,7 @@ mod props;
 mod rng;
 mod run;
 mod snap;
+mod structural;
 mod world;
 mod xlsxfault;
 
